@@ -10,6 +10,11 @@ Spec: spec/Selector
                         BuildStaticWeightList's output (B3)
   Trace_Selector        places concurrent operations atomically between their begin/end events (B1)
 Driver: harness/cmd/seldrive (hist | weights | conc), also built with -race for the concurrent scenario.
+Endpoints are [host, weight, weight type]: the groups conhash-lowweights (weights 1..3, 5, 8 around the w/4 boundary of the
+weighted ring) and mixed-types (members that carry no static weight under the weighted mode: no static weights apply while
+such a member is installed, they apply again once it is removed) are part of both tiers; the driver overwrites the list it
+handed to Refresh once Refresh has returned (the caller's list is not the selector's); the concurrent burst starts its
+goroutines together and is judged as T consecutive positions of the rotation.
 """
 import json
 import os
@@ -33,6 +38,11 @@ GROUPS = {
     "weighted-canon": dict(HOSTS="G3", WEIGHTS="WW", LISTS="WLists", ADD="GAddW", REMOVE="GRemW", CANON="TRUE"),
     "conhash-weights": dict(HOSTS="G3", WEIGHTS="CW", LISTS="CLists", ADD="GAddC", REMOVE="GAddC", CANON="TRUE"),
     "conhash-weights-free": dict(HOSTS="G3", WEIGHTS="CW", LISTS="CLists", ADD="GAddC", REMOVE="GAddC", CANON="FALSE"),
+    # small positive weights under the weighted consistent hash (w/4 rounds of ring points: 0 rounds for 1..3, yet eligible)
+    "conhash-lowweights": dict(HOSTS="G3", WEIGHTS="CWL", LISTS="CLLists", ADD="GAddCL", REMOVE="GRemCL", CANON="TRUE"),
+    "conhash-lowweights-free": dict(HOSTS="G3", WEIGHTS="CWL", LISTS="CLLists", ADD="GAddCL", REMOVE="GRemCLFree", CANON="FALSE"),
+    # weighted mode over sets in which some endpoint carries no static weight (weight type "loop")
+    "mixed-types": dict(HOSTS="G3", WEIGHTS="TW", LISTS="TLists", ADD="GAddT", REMOVE="GRemW", CANON="FALSE"),
 }
 # families: which groups feed which real selectors
 FAMILIES = {
@@ -40,7 +50,7 @@ FAMILIES = {
                   wt="0", k={"rr": 8, "random": 12, "modhash": 8, "conhash": 12}),
     "weighted": dict(shards=[["rr"], ["random"], ["modhash"]], quick_shards=[["rr"], ["random", "modhash"]], wt="1",
                      k={"rr": 40, "random": 16, "modhash": 32, "conhash": 16}),
-    "conhash-weights": dict(shards=[["conhash"], ["conhashd"]], quick_shards=[["conhash", "conhashd"]], wt="1",
+    "conhash-weights": dict(shards=[["conhash"], ["conhashd"]], wt="1",
                             k={"rr": 8, "random": 8, "modhash": 8, "conhash": 32}),
 }
 
@@ -144,7 +154,7 @@ def members_after(ops):
                     m.append(dict(e))
         elif op["o"] == "A":
             if all(x["h"] != op["h"] for x in m):
-                m.append({"h": op["h"], "w": op["w"]})
+                m.append({"h": op["h"], "w": op["w"], "t": op["t"]})
         else:
             m = [x for x in m if x["h"] != op["h"]]
     return m
@@ -170,6 +180,9 @@ def removal_detail(ops, step, sel):
     alien = next((x for x in sel if x not in mem and x != 0), None)
     if alien is None or alien < 0:
         return "alien-endpoint"
+    if alien == 9:
+        # the driver overwrites the list it handed to Refresh with host 9 once Refresh has returned
+        return "endpoint-written-into-the-callers-list-after-Refresh"
     for k in range(step, 0, -1):
         before = {x["h"] for x in members_after(ops[:k - 1])}
         after = {x["h"] for x in members_after(ops[:k])}
@@ -178,10 +191,30 @@ def removal_detail(ops, step, sel):
     return "host-never-added"
 
 
+def ep_str(e):
+    return "{h%d,w=%d%s}" % (e["h"], e["w"], "" if e["t"] == 1 else ",no-static-weight")
+
+
 def op_str(op):
     if op["o"] == "F":
-        return "Refresh([%s])" % ", ".join("{h%d,w=%d}" % (e["h"], e["w"]) for e in op["l"])
-    return "%s({h%d,w=%d})" % ("Add" if op["o"] == "A" else "Remove", op["h"], op["w"])
+        return "Refresh([%s])" % ", ".join(ep_str(e) for e in op["l"])
+    return "%s(%s)" % ("Add" if op["o"] == "A" else "Remove", ep_str(op))
+
+
+def set_class(ops, step, sn):
+    """Names the class of the member set at the failing step where that is what makes the input special (wording of the
+    signature only): a member without a static weight under the weighted mode; only small positive weights (< 4: less
+    than one round of four ring points) under the weighted consistent hash."""
+    m = members_after(ops[:step])
+    if not sn.endswith("+weights") or not m:
+        return ""
+    if any(x["t"] != 1 for x in m) and not sn.startswith("conhash"):
+        return ":member-without-static-weight"
+    if sn.startswith("conhash"):
+        pos = [x["w"] for x in m if x["w"] > 0]
+        if pos and max(pos) < 4:
+            return ":only-weights-below-4"
+    return ""
 
 
 def sname(s, wt):
@@ -200,7 +233,9 @@ def run(ctx):
         "weighted cycle counts for positive weights, no crash); order/slot refinements of Selector.tla are recorded as observations",
         "concurrent runs: events are ordered by the shared recorder's lock; each operation takes effect atomically between its "
         "begin and end event; a data-race report alone is an observation",
-        "static weights are exercised with WeightType = static on every endpoint; weights stay small (|w| <= 1000)",
+        "weights stay small (|w| <= 1000); endpoints carry WeightType static, or (dedicated groups / a quarter of the weighted "
+        "concurrent runs) 'loop' = no static weight: with such a member no static weights apply and round robin is held to "
+        "plain rotation, mod-hash/random to membership (slot as an observation); the weighted consistent hash ignores the type",
     ]
     cov = {}
     samples = []
@@ -225,20 +260,26 @@ def run(ctx):
     # ---- 2. histories (B2): TLC enumerates, the driver applies, TLC judges
     plan = ctx.pick(
         {"plain": [("plain3", 4, None), ("plain4", 3, None), ("plain4", 8, 200)],
-         "weighted": [("weighted", 3, None)],
-         "conhash-weights": [("conhash-weights", 3, None)]},
+         "weighted": [("weighted", 3, None), ("mixed-types", 3, None)],
+         "conhash-weights": [("conhash-weights", 3, None), ("conhash-lowweights", 3, None), ("mixed-types", 2, None)]},
         {"plain": [("plain3", 5, None), ("plain4", 4, None), ("plain4", 9, 3000)],
-         "weighted": [("weighted", 3, None), ("weighted-canon", 4, None), ("weighted", 7, 3000)],
-         "conhash-weights": [("conhash-weights-free", 3, None), ("conhash-weights-free", 7, 5000)]})
+         "weighted": [("weighted", 3, None), ("weighted-canon", 4, None), ("weighted", 7, 3000),
+                      ("mixed-types", 3, None), ("mixed-types", 7, 3000)],
+         "conhash-weights": [("conhash-weights-free", 3, None), ("conhash-weights-free", 7, 5000),
+                             ("conhash-lowweights-free", 3, None), ("conhash-lowweights-free", 7, 5000),
+                             ("mixed-types", 3, None), ("mixed-types", 7, 3000)]})
     gen_f = {}
+    gen_once = {}       # a group that feeds two families is generated once
     for fam, gl in plan.items():
         for k, (g, d, sim) in enumerate(gl):
-            gen_f[(fam, k)] = pool.submit(generate, ctx, g, d, sim, ctx.seed * 1000 + k)
+            if (g, d, sim) not in gen_once:
+                gen_once[(g, d, sim)] = pool.submit(generate, ctx, g, d, sim, ctx.seed * 1000 + len(gen_once))
+            gen_f[(fam, k)] = gen_once[(g, d, sim)]
 
     # ---- 1. model checking of the design
-    mc_cfgs = ctx.pick(["rr_plain", "rr_weighted_q", "rr_degenerate_q", "others_q"],
-                       ["rr_plain", "rr_weighted_q", "rr_degenerate_q", "others_q", "conhash_q",
-                        "rr_weighted", "rr_degenerate", "others", "conhash"])
+    mc_cfgs = ctx.pick(["rr_plain", "rr_weighted_q", "rr_degenerate_q", "others_q", "mixed_q", "conhash_q"],
+                       ["rr_plain", "rr_weighted_q", "rr_degenerate_q", "others_q", "conhash_q", "mixed_q",
+                        "rr_weighted", "rr_degenerate", "others", "conhash", "mixed"])
     mc_f = {c: pool.submit(tlc_run, ctx, SPEC, "MC_Selector", cfg="MC_%s.cfg" % c, workers=ctx.pick(3, 4), timeout=1500,
                            name="mc-" + c) for c in mc_cfgs}
     wcfg = ctx.pick("weights13", "weights20")
@@ -267,7 +308,15 @@ def run(ctx):
     vrecs = []
     for w in vectors:
         ordr = ctx.rng.sample(range(1, 10), len(w))
-        vrecs.append({"w": w, "ord": ordr})
+        vrecs.append({"w": w, "t": [1] * len(w), "ord": ordr})
+    # lists holding an endpoint without a static weight (every position, with positive / zero / negative weights around it)
+    for n in (1, 2, 3, 4):
+        for pos in range(n):
+            for _ in range(ctx.pick(4, 40)):
+                w = [ctx.rng.choice(P + [0, -1, -200]) for _ in range(n)]
+                t = [1 if ctx.rng.random() < 0.7 else 0 for _ in range(n)]
+                t[pos] = 0
+                vrecs.append({"w": w, "t": t, "ord": ctx.rng.sample(range(1, 10), n)})
 
     for t in bthreads:
         t.join()
@@ -297,7 +346,7 @@ def run(ctx):
         seed = ctx.seed * 100 + combos.index((s, wt)) * 2 + (1 if race else 0)
         rc, so, se = sh([exe_race if race else exe, "conc", "-strat", s, "-wt=%s" % ("true" if wt else "false"),
                          "-seed", str(seed), "-runs", str(runs_per), "-out", out,
-                         "-updaters", "3", "-selectors", "4", "-ops", "10", "-sels", "30", "-burst", "24"],
+                         "-updaters", "3", "-selectors", "4", "-ops", "10", "-sels", "30", "-burst", "250"],
                         env=env, timeout=ctx.pick(900, 1800), check=False)
         if rc != 0:
             raise Inconclusive("concurrent driver failed (%s wt=%s race=%s): rc=%d %s" % (s, wt, race, rc, se[-2000:]))
@@ -312,9 +361,11 @@ def run(ctx):
     for (fam, k), f in gen_f.items():
         scripts, r = f.result()
         g, d, sim = plan[fam][k]
-        gen_stats["%s/depth%d%s" % (g, d, "/simulated" if sim else "/all")] = len(scripts)
-        gen_states += r.distinct
-        gen_trans += r.generated
+        gkey = "%s/depth%d%s" % (g, d, "/simulated" if sim else "/all")
+        if gkey not in gen_stats:
+            gen_states += r.distinct
+            gen_trans += r.generated
+        gen_stats[gkey] = len(scripts)
         fam_scripts.setdefault(fam, []).extend(scripts)
     ctx.log("histories generated", gen_stats)
 
@@ -340,20 +391,24 @@ def run(ctx):
             shard_jobs.append(("%s-%s" % (fam, "+".join(sh_)), fam, stext, lines))
     ctx.log("histories driven: %d records, %d selections" % (sum(len(j[3]) for j in shard_jobs), nsel))
 
-    # self-test material: corrupted copies of accepted-looking records are appended to the first shard
-    st_plan = []
-    name0, fam0, stext0, obs0 = shard_jobs[0]
-    scripts0 = fam_scripts[fam0]
+    # self-test material: corrupted copies of accepted-looking records are appended to the shard they come from
+    def last_members(scripts, r):
+        return members_after(scripts[r["i"]]["ops"][:len(r["obs"])])
 
-    def find_rec(pred):
-        for line in obs0:
+    def find_rec(k, pred):
+        scripts = fam_scripts[shard_jobs[k][1]]
+        for line in shard_jobs[k][3]:
             r = json.loads(line)
-            if not r["hang"] and len(r["obs"]) == len(scripts0[r["i"]]["ops"]) and pred(r):
+            if not r["hang"] and len(r["obs"]) == len(scripts[r["i"]]["ops"]) and all(o["p"] == "" and o["sp"] == "" for o in r["obs"]) \
+                    and pred(r, last_members(scripts, r)):
                 return r
         return None
 
-    base = find_rec(lambda r: r["s"] == "rr" and len(set(r["obs"][-1]["sel"])) >= 2 and 0 not in r["obs"][-1]["sel"]
-                    and all(o["p"] == "" for o in r["obs"]))
+    def shard_of(prefix):
+        return next((k for k, j in enumerate(shard_jobs) if j[0].startswith(prefix)), None)
+
+    st_plan = {}        # shard index -> [(label, corrupted record, class the oracle must give)]
+    base = find_rec(0, lambda r, m: r["s"] == "rr" and len(set(r["obs"][-1]["sel"])) >= 2 and 0 not in r["obs"][-1]["sel"])
     if base is None:
         raise Inconclusive("no record suitable for the binding self-test")
     c1 = json.loads(json.dumps(base))
@@ -362,10 +417,29 @@ def run(ctx):
     c2["obs"][-1]["sel"][1] = c2["obs"][-1]["sel"][0]            # breaks the rotation, still a member
     c3 = json.loads(json.dumps(base))
     c3["obs"][-1]["sel"] = [0] * len(c3["obs"][-1]["sel"])      # errors although endpoints are eligible
-    st_plan = [("non-member", c1, "non-member"), ("rotation-broken", c2, "rotation"), ("spurious-error", c3, "error-though-eligible")]
-    n0 = len(obs0)
-    obs0_ext = obs0 + [json.dumps(c, separators=(",", ":")) + "\n" for _, c, _ in st_plan]
-    wbase = next((i for i, r in enumerate(wrecs) if r["p"] == "" and len(r["w"]) >= 2 and min(r["w"]) > 0
+    st_plan[0] = [("non-member", c1, "non-member"), ("rotation-broken", c2, "rotation"), ("spurious-error", c3, "error-though-eligible")]
+    # weighted round robin over a set with a member that carries no static weight: plain rotation is demanded
+    kw = shard_of("weighted-rr")
+    basem = None if kw is None else find_rec(kw, lambda r, m: r["s"] == "rr" and r["wt"] and len(m) >= 2 and any(x["t"] != 1 for x in m))
+    if basem is None:
+        raise Inconclusive("no record suitable for the binding self-test (weighted mode, member without a static weight)")
+    c4 = json.loads(json.dumps(basem))
+    c4["obs"][-1]["sel"][1] = c4["obs"][-1]["sel"][0]
+    st_plan.setdefault(kw, []).append(("no-static-weight-member-rotation-broken", c4, "rotation"))
+    # weighted consistent hash over a set whose positive weights are all below 4: an error there is spurious
+    kc = shard_of("conhash-weights-")
+    basec = None if kc is None else find_rec(kc, lambda r, m: r["wt"] and any(x["w"] > 0 for x in m) and max(x["w"] for x in m) < 4)
+    if basec is None:
+        raise Inconclusive("no record suitable for the binding self-test (weighted consistent hash, small positive weights)")
+    c5 = json.loads(json.dumps(basec))
+    c5["obs"][-1]["sel"] = [0] * len(c5["obs"][-1]["sel"])
+    st_plan.setdefault(kc, []).append(("small-positive-weights-spurious-error", c5, "error-though-eligible"))
+    st_n0 = {k: len(shard_jobs[k][3]) for k in st_plan}
+
+    def obs_ext(k):
+        return shard_jobs[k][3] + [json.dumps(c, separators=(",", ":")) + "\n" for _, c, _ in st_plan.get(k, [])]
+
+    wbase = next((i for i, r in enumerate(wrecs) if r["p"] == "" and len(r["w"]) >= 2 and min(r["w"]) > 0 and min(r["t"]) == 1
                   and len(set(r["out"])) >= 2), None)
     if wbase is None:
         raise Inconclusive("no weight record suitable for the binding self-test")
@@ -376,7 +450,7 @@ def run(ctx):
     orc_f = [None] * len(shard_jobs)
     for k in sorted(range(len(shard_jobs)), key=lambda k: -sum(len(x) for x in shard_jobs[k][3])):
         name, fam, stext, obs = shard_jobs[k]           # the most expensive shard first
-        orc_f[k] = pool.submit(oracle, ctx, name, stext, obs0_ext if k == 0 else obs, wrecs_ext if k == len(shard_jobs) - 1 else [])
+        orc_f[k] = pool.submit(oracle, ctx, name, stext, obs_ext(k), wrecs_ext if k == len(shard_jobs) - 1 else [])
 
     # ---- 3b. traces -> TLC
     def prep_traces(path):
@@ -471,10 +545,9 @@ def run(ctx):
     for k, ((name, fam, stext, obs), f) in enumerate(zip(shard_jobs, orc_f)):
         bad, wbad, r = f.result()
         scripts = fam_scripts[fam]
-        if k == 0:
-            for j, (label, _, want) in enumerate(st_plan):
-                got = bad.pop(n0 + j, None)
-                st_res[label] = "rejected (%s)" % got[1] if got and got[1] == want else "ACCEPTED/%s" % (got,)
+        for j, (label, _, want) in enumerate(st_plan.get(k, [])):
+            got = bad.pop(st_n0[k] + j, None)
+            st_res[label] = "rejected (%s)" % got[1] if got and got[1] == want else "ACCEPTED/%s" % (got,)
         if k == len(shard_jobs) - 1:
             got = wbad.pop(len(wrecs), None)
             st_res["weight-list-slot-moved"] = "rejected (%s)" % got[0] if got and got[0] == "count" else "ACCEPTED/%s" % (got,)
@@ -493,7 +566,7 @@ def run(ctx):
                           "observation": o, "class": pc, "step": ps}
                 if pc in ("panic", "panic-in-select"):
                     msg, fn = (o["p"], o["pf"]) if pc == "panic" else (o["sp"], o["spf"])
-                    ctx.violate("C13:panic:%s:%s" % (fn or "?", msg_class(msg)),
+                    ctx.violate("C13:panic:%s:%s%s" % (fn or "?", msg_class(msg), set_class(ops, ps, sn)),
                                 "%s panicked (%s) in %s on the %s selector after %s; members then: %s"
                                 % ("the operation" if pc == "panic" else "Select", msg, fn, sn, "; ".join(hist),
                                    members_after(ops[:ps])), replay)
@@ -502,6 +575,8 @@ def run(ctx):
                 else:
                     detail = ("history" if pc == "hang" else removal_detail(ops, ps, o.get("sel", [])) if pc == "non-member"
                               else "after-" + op_detail(ops, ps))
+                    if pc not in ("hang", "non-member"):
+                        detail += set_class(ops, ps, sn)
                     ctx.violate("C13:%s:%s:%s" % (sn, pc, detail),
                                 "%s selector (%s): %s after %s; members per specification: %s; selections seen: %s"
                                 % (sn, rec["s"], pc, "; ".join(hist), members_after(ops[:ps]), o.get("sel")), replay)
@@ -521,14 +596,14 @@ def run(ctx):
         if pc == "panic":
             ctx.violate("C13:panic:%s:%s" % (rec["pf"] or "?", msg_class(rec["p"])),
                         "BuildStaticWeightList panicked (%s) for weights %s" % (rec["p"], rec["w"]),
-                        {"kind": "weights", "w": rec["w"], "hosts": rec["ord"], "panic": rec["p"]})
+                        {"kind": "weights", "w": rec["w"], "t": rec["t"], "hosts": rec["ord"], "panic": rec["p"]})
         elif pc != "ok":
             ctx.violate("C13:weights:%s" % pc,
                         "BuildStaticWeightList(%s) = %s: %s (a full cycle must hold endpoint i exactly max(1, floor(W_i*R/W_max)) times)"
                         % (rec["w"], rec["out"], pc), {"kind": "weights", "w": rec["w"], "hosts": rec["ord"], "out": rec["out"]})
         elif rc != "ok":
-            worder += 1
-            robs.setdefault("weights:order", {"count": 0, "example": {"w": rec["w"], "hosts": rec["ord"], "out": rec["out"]}})["count"] += 1
+            worder += rc == "order"
+            robs.setdefault("weights:" + rc, {"count": 0, "example": {"w": rec["w"], "t": rec["t"], "hosts": rec["ord"], "out": rec["out"]}})["count"] += 1
 
     # ---- collect: traces
     tstates = ttrans = 0
@@ -557,6 +632,10 @@ def run(ctx):
             if ev.get("p"):
                 ctx.violate("C13:panic:%s:%s" % (ev.get("pf") or "?", msg_class(ev["p"])),
                             "panic (%s) in %s during the concurrent scenario on the %s selector" % (ev["p"], ev.get("pf"), sn), replay)
+            elif ev["e"] == "E" and ev.get("r") == 0:
+                ctx.violate("C13:concurrent:%s:select-error-though-an-endpoint-is-eligible-between-begin-and-end" % sn,
+                            "concurrent Select on the %s selector failed although at every point between its begin and end some "
+                            "endpoint was eligible" % sn, replay)
             elif ev["e"] == "E":
                 ctx.violate("C13:concurrent:%s:select-result-not-a-member-between-begin-and-end" % sn,
                             "concurrent Select on the %s selector returned %s, which is allowed at no point between its begin and end"
@@ -621,6 +700,7 @@ def run(ctx):
         "histories": {"generated_by_tlc": gen_stats, "records_judged": judged, "selections_judged": nsel,
                       "shards": [j[0] for j in shard_jobs], "tlc_states": gen_states},
         "weight_vectors": {"judged": len(wrecs), "positive": sum(1 for r in wrecs if r["w"] and min(r["w"]) > 0),
+                           "with_an_endpoint_without_static_weight": sum(1 for r in wrecs if r["t"] and min(r["t"]) == 0),
                            "with_zero_or_negative": sum(1 for r in wrecs if r["w"] and min(r["w"]) <= 0),
                            "order_differs_from_reference": worder},
         "concurrent": {"runs": truns, "events": tevents, "begins_while_another_operation_pending": overlap,
@@ -633,7 +713,8 @@ def run(ctx):
         "evaluations": nsel + len(wrecs) + tevents,
         "distinct_nontrivial": judged + len({json.dumps(r["w"]) + json.dumps(r["ord"]) for r in wrecs}) + truns,
         "rule": "every history of the listed depth over the group's operation alphabet (TLC BFS) and simulated deeper ones, applied to "
-                "fresh real selectors (rr, random, modhash, conhash ketama/default; plain and static-weight mode), a window of "
+                "fresh real selectors (rr, random, modhash, conhash ketama/default; plain and static-weight mode; groups with small positive "
+                "weights 1..3/5/8 for the weighted ring and with members that carry no static weight under the weighted mode), a window of "
                 "selections after every operation judged by Oracle_Selector; weight vectors (all of length<=2 over a boundary set, "
                 "random longer ones) through BuildStaticWeightList; concurrent runs (3 updaters, 4 selectors, final burst) validated "
                 "by Trace_Selector; distinct = distinct (strategy, mode, history) + distinct vectors + runs",
